@@ -74,6 +74,19 @@ CLAIMS = {
         "working-memory key sets; oracle: every sibling rule behaves together exactly as alone on the real engine.",
         note="SnapInj (snapshots determine nodes) is a named hypothesis of the refinement theorem (proof in progress: Proofs/SnapInj.lean); fixes 162f0cf (float "
         "constants) and 9d8d3f3 (string constants) in /repo removed the two known collisions.", tech="Lean 4 corollaries of the refinement theorem + exact snapshot correspondence + alone-vs-together oracle", ref="5.C07"),
+ "C16": dict(text="Lean theorems over the library model: C16_build_preserves (unique keys, key = RuleName and every existing entry unchanged by any accepted or "
+        "rejected resource), C16_remove (the name is free, the entry tomb-stoned, others untouched; both tomb-stone namings), C16_remove_inv, C16_name_reusable, "
+        "C16_storeLoad (no removed rule comes back), C16_instance_keeps_flags; removed entries are never candidates/fetched by C01/C11. Real library vs model after "
+        "every step of generated operation histories over one or two knowledge bases; monitors on the real results.",
+        note="uuid of library-level tomb-stones is taken from the real run (oracle). Fix 72ac919 in /repo (removed rules are not stored).",
+        tech="Lean 4 invariants over operation histories + history correspondence + monitors", ref="5.C16"),
+ "C09": dict(text="partial: Lean theorems C09_instance_succeeds (for every knowledge base, whatever its history), C09_faithful (an instance behaves as the reference "
+        "semantics of the blueprint's rules), C09_isolated, C09_steps_commute (steps on different instances commute: every schedule gives each instance its "
+        "sequential result), C09_blueprint_untouched — about a model in which instances are values. That the implementation allocates fresh objects is validated: "
+        "reflective pointer-graph disjointness of blueprint and instances after every history; concurrent creation+execution from N goroutines compared with the "
+        "sequential model; thorough tier under the Go race detector with GOMAXPROCS 1, 2, 16.",
+        note="Go-memory-model data races cannot be exhibited by the model (named in DESIGN.md); validation only. Fix fc27539 in /repo (rejected resources no longer break instance creation).",
+        tech="Lean 4 theorems (value-semantics model) + pointer-graph check + race-detector runs", ref="5.C09"),
 }
 
 def main():
